@@ -87,7 +87,10 @@ type reqRecord struct {
 	params map[string]string
 	u0, u1 string
 	chains int
+	dirty  int
 }
+
+const poisonKey = "\x00written-by-a-handler"
 
 type routerSession struct {
 	f       *flamego.Flame
@@ -269,8 +272,14 @@ func (s *routerSession) add(hid int, methods, text string) string {
 		s.cur.ran++
 		s.cur.params = map[string]string{}
 		for k, v := range c.Params() {
+			if k == poisonKey {
+				s.cur.dirty = 1 // a value written by an EARLIER request's handler is visible to this request
+				continue
+			}
 			s.cur.params[k] = v
 		}
+		// a handler may write to the map it was given; no later request may see this
+		c.Params()[poisonKey] = "1"
 		name := fmt.Sprintf("r%d", hid)
 		if !s.named[hid] {
 			// the registration panicked half-way (some methods are registered, no Route was returned to name)
@@ -399,8 +408,8 @@ func (s *routerSession) req(method, path string, hs []string) (out string) {
 	if rec.ran == 0 {
 		return fmt.Sprintf("nf chains=%d code=%d", rec.chains, w.Code)
 	}
-	return fmt.Sprintf("h %d %s route=%s u0=%s u1=%s chains=%d ran=%d", rec.hid, showParams(rec.params),
-		hx(rec.params["route"]), hx(rec.u0), hx(rec.u1), rec.chains, rec.ran)
+	return fmt.Sprintf("h %d %s route=%s u0=%s u1=%s chains=%d ran=%d dirty=%d", rec.hid, showParams(rec.params),
+		hx(rec.params["route"]), hx(rec.u0), hx(rec.u1), rec.chains, rec.ran, rec.dirty)
 }
 
 func (s *routerSession) treq(method, path string, hs []string) (out string) {
